@@ -10,6 +10,7 @@ def evalOp (ws : List String) : String :=
   match ws with
   | "boot" :: _ => Driver.NotaryBootstrap.evalOp ws
   | "deploy" :: _ => Driver.NotaryBootstrap.evalOp ws
+  | "upgrade" :: _ => Driver.NotaryBootstrap.evalOp ws
   | _ => Driver.DeployHelpers.evalOp ws
 
 def stepLine (s : Unit) (line : String) : Unit × List String :=
